@@ -208,6 +208,10 @@ func ptrAsRef(v Val) (Sc, bool) {
 		if x.Kind == 1 && len(x.Path) == 0 {
 			return Sc{x.Ref, "Int"}, true
 		}
+		// pointer to a whole array object: its element memory id is 4096*ref
+		if x.Kind == 2 && x.Idx == WHOLE && strings.HasPrefix(x.ArrId, "(* 4096 ") && strings.HasSuffix(x.ArrId, ")") {
+			return Sc{x.ArrId[8 : len(x.ArrId)-1], "Int"}, true
+		}
 	}
 	return Sc{}, false
 }
